@@ -36,6 +36,7 @@ def _standin(rep, tier, seed, only_search=False):
             if abs(d - want) > dc.tol_for(KIND, a, b, want):
                 rep.violation("under PYTHONHASHSEED=%s bottleneck(%s, %s) = %r, optimum %r" % (s, a, b, d, want), "bottleneck:value:hashseed",
                               {"input": {"dgm1": a, "dgm2": b, "PYTHONHASHSEED": s}, "observed": d, "expected": want})
+    evals += dc.view_cases(rep, KIND, rng, 12 if tier == "quick" else 300)
     rep.bounded("bottleneck-vs-bruteforce", "all pairs of diagrams with <=2 points on a 3x3 lattice (+ one infinite bar), %d random pairs of <=4 points, scales 1e-9..1e6, %d hash seeds" % (150 if tier == "quick" else 4000, len(seeds)),
                 evals, len(distinct), "distinct = (feature class, sizes, source); oracle = threshold search + augmenting paths on the augmented matrix built from the statement", samples, exhaustive=True)
 
